@@ -406,12 +406,12 @@ func (s *session) apply(step tf.M) bool {
 		}
 	}
 	defer func() { s.lastCan = fmt.Sprint(s.project()["canSign"]) }()
-	// bounds of the trace specification (MaxG = 12, MaxSig = 40): steps that would exceed them are skipped, so
+	// bounds of the trace specification (MaxG = 9, MaxSig = 26): steps that would exceed them are skipped, so
 	// the bound can never be what rejects a trace
-	if (e == "Propose" || e == "Install") && tk.GetGroupCount(r.Ctx) >= 10 {
+	if (e == "Propose" || e == "Install") && tk.GetGroupCount(r.Ctx) >= 7 {
 		return false
 	}
-	if e == "Request" && tk.GetSigningCount(r.Ctx) >= 34 {
+	if e == "Request" && tk.GetSigningCount(r.Ctx) >= 16 {
 		return false
 	}
 	switch e {
